@@ -15,6 +15,7 @@ import SH.Model.RawTag
 import SH.Gen.C11
 import SH.Lemmas.NormC11
 import SH.Lemmas.NormInPlaceC11
+import SH.Lemmas.NormLenC11
 import SH.Lemmas.NormSpecC11
 
 namespace SH.C11
@@ -267,6 +268,100 @@ example : raw64 (str "18446744073709551615") = some 18446744073709551615 ∧ raw
 example : raw32 (str "+5") = some 5 ∧ raw64 (str "+5") = none := by decide
 example : Decimal (str "-12") (-12) := Decimal.neg (str "12") (by decide) (by unfold AllDigits; decide)
 
+/-! ### no spelling length is special: leading zeros of any length -/
+
+/-- k ASCII zeros -/
+def zeros (k : Nat) : List UInt8 := List.replicate k 0x30
+
+theorem digitsVal_zeros (k : Nat) (d : List UInt8) : digitsVal (zeros k ++ d) 0 = digitsVal d 0 := by
+  induction k with
+  | zero => rfl
+  | succ k ih =>
+    have : isDigit 0x30 = true := by decide
+    simp only [zeros, List.replicate_succ, List.cons_append, digitsVal, this, ↓reduceIte] at ih ⊢
+    exact ih
+
+theorem magnitude_zeros (k : Nat) (d : List UInt8) (hd : d ≠ []) : magnitude (zeros k ++ d) = magnitude d := by
+  unfold magnitude
+  have h1 : (zeros k ++ d).isEmpty = false := by cases d <;> simp_all
+  have h2 : d.isEmpty = false := by cases d <;> simp_all
+  simp only [h1, h2, Bool.false_eq_true, ↓reduceIte, digitsVal_zeros]
+
+theorem parseUint64_zeros (k : Nat) (d : List UInt8) (hd : d ≠ []) : parseUint64 (zeros k ++ d) = parseUint64 d := by
+  unfold parseUint64
+  have h1 : (zeros k ++ d).isEmpty = false := by cases d <;> simp_all
+  have h2 : d.isEmpty = false := by cases d <;> simp_all
+  simp only [h1, h2, Bool.false_eq_true, ↓reduceIte, digitsVal_zeros]
+
+theorem digit_not_sign (c : UInt8) (hc : isDigit c = true) : c ≠ plus ∧ c ≠ minus := by
+  constructor <;> (intro h; subst h; revert hc; decide)
+
+/-- strconv.ParseInt: zeros in front of an unsigned digit string, and zeros after the sign, change nothing -/
+theorem parseInt64_zeros (k : Nat) (c : UInt8) (rest : List UInt8) (hc : isDigit c = true) :
+    parseInt64 (zeros k ++ c :: rest) = parseInt64 (c :: rest) := by
+  cases k with
+  | zero => rfl
+  | succ k =>
+    obtain ⟨h1, h2⟩ := digit_not_sign c hc
+    have hz : (0x30 : UInt8) ≠ plus ∧ (0x30 : UInt8) ≠ minus := by decide
+    have hm := magnitude_zeros (k + 1) (c :: rest) (by simp)
+    simp only [zeros, List.replicate_succ, List.cons_append] at hm
+    simp only [zeros, List.replicate_succ, List.cons_append, parseInt64, hz.1, hz.2, h1, h2, ↓reduceIte, hm]
+
+theorem parseInt64_sign_zeros (k : Nat) (sign : UInt8) (hs : sign = plus ∨ sign = minus) (d : List UInt8) (hd : d ≠ []) :
+    parseInt64 (sign :: (zeros k ++ d)) = parseInt64 (sign :: d) := by
+  have hm := magnitude_zeros k d hd
+  have hne : minus ≠ plus := by decide
+  rcases hs with h | h <;> subst h <;> simp only [parseInt64, hm, hne, ↓reduceIte]
+
+/-- "a decimal integer may carry any number of leading zeros": for every k, k zeros in front of the digits — at the
+    start of the spelling or right after the sign — give the same answer (accepted or not, and the same stored
+    pattern) as the spelling without them, for both raw parsers.  `c :: rest` is a spelling that starts with a digit
+    (anything may follow: if it is not a decimal integer both sides are rejected alike). -/
+theorem leading_zeros_irrelevant (k : Nat) (c : UInt8) (rest : List UInt8) (hc : isDigit c = true) :
+    raw32 (zeros k ++ c :: rest) = raw32 (c :: rest) ∧
+    raw64 (zeros k ++ c :: rest) = raw64 (c :: rest) ∧
+    raw32 (minus :: (zeros k ++ c :: rest)) = raw32 (minus :: c :: rest) ∧
+    raw64 (minus :: (zeros k ++ c :: rest)) = raw64 (minus :: c :: rest) ∧
+    raw32 (plus :: (zeros k ++ c :: rest)) = raw32 (plus :: c :: rest) ∧
+    raw64 (plus :: (zeros k ++ c :: rest)) = raw64 (plus :: c :: rest) := by
+  have hne : (c :: rest) ≠ [] := by simp
+  have e1 := parseInt64_zeros k c rest hc
+  have e2 := parseInt64_sign_zeros k minus (Or.inr rfl) (c :: rest) hne
+  have e3 := parseInt64_sign_zeros k plus (Or.inl rfl) (c :: rest) hne
+  have e4 := parseUint64_zeros k (c :: rest) hne
+  have hpm : plus ≠ minus := by decide
+  obtain ⟨h1, h2⟩ := digit_not_sign c hc
+  refine ⟨by simp only [raw32, e1], ?_, by simp only [raw32, e2], by simp only [raw64, ↓reduceIte, e2],
+    by simp only [raw32, e3], ?_⟩
+  · cases k with
+    | zero => rfl
+    | succ k =>
+      have hz : (0x30 : UInt8) ≠ minus := by decide
+      have e4' := e4
+      simp only [zeros, List.replicate_succ, List.cons_append] at e4' ⊢
+      simp only [raw64, hz, h2, ↓reduceIte, e4']
+  · -- an explicit plus: ParseUint rejects it whatever follows
+    have : ∀ t, parseUint64 (plus :: t) = none := by
+      intro t
+      have : isDigit plus = false := by decide
+      simp [parseUint64, digitsVal, this]
+    simp only [raw64, hpm, ↓reduceIte, this]
+
+/-- the seeded spellings: 130 zeros then 42; '-' then 200 zeros then 1 (and any other number of zeros) -/
+example (k : Nat) : raw64 (zeros k ++ str "42") = some 42 ∧ raw32 (zeros k ++ str "42") = some 42 := by
+  have h := leading_zeros_irrelevant k 0x34 (str "2") (by decide)
+  exact ⟨h.2.1.trans (by decide), h.1.trans (by decide)⟩
+example (k : Nat) : raw64 (minus :: (zeros k ++ str "1")) = some (2 ^ 64 - 1) ∧
+    raw32 (minus :: (zeros k ++ str "1")) = some (2 ^ 32 - 1) := by
+  have h := leading_zeros_irrelevant k 0x31 [] (by decide)
+  exact ⟨h.2.2.2.1.trans (by decide), h.2.2.1.trans (by decide)⟩
+/-- … and a boundary value stays a boundary value: 2^64-1 accepted, 2^64 rejected behind any number of zeros -/
+example (k : Nat) : raw64 (zeros k ++ str "18446744073709551615") = some 18446744073709551615 ∧
+    raw64 (zeros k ++ str "18446744073709551616") = none := by
+  exact ⟨(leading_zeros_irrelevant k 0x31 (str "8446744073709551615") (by decide)).2.1.trans (by decide),
+    (leading_zeros_irrelevant k 0x31 (str "8446744073709551616") (by decide)).2.1.trans (by decide)⟩
+
 end Raw
 
 /-! ## Normalisation -/
@@ -518,6 +613,58 @@ theorem direct_safe_when_not_growing (T : Tables) (maxLen : Nat) (arr : List UIn
 /-- non-vacuity: messy spacing only shrinks, so it is nonGrowing; "\x01host" is not -/
 example : nonGrowing G 6 [0x20, 0x61, 0x20, 0x20, 0x62] true = true ∧
     nonGrowing G 6 [0x01, 0x68, 0x6F, 0x73, 0x74] true = false := by decide
+
+
+/-! ### no input length is special: whitespace runs of any length -/
+
+/-- "trimmed": whitespace in front of a value — the encodings of any number of runes the table calls spaces, hence
+    any number of BYTES — does not take part in the result: forcing `ws ++ s` is forcing `s`.  (The output has at most
+    maxLen bytes but the bytes that form it may lie arbitrarily far into the input: no cut of the input at a fixed
+    offset is sound — seeded/C11-r3-1 cut at 132 bytes, seeded/C11-r4-1 at 512.) -/
+theorem force_ignores_leading_whitespace_length (T : Tables) (hT : T.Sane) (maxLen : Nat) (ws s : List UInt8)
+    (hws : WsOnly T ws) : force T maxLen (ws ++ s) = force T maxLen s := by
+  obtain ⟨rs, he, hs⟩ := hws
+  rw [force_eq_slow T hT, force_eq_slow T hT, slow_skip_ws T maxLen ws rs he hs]
+
+/-- "single ASCII spaces": a non-empty whitespace run of any length after whole runes `a` acts exactly like one
+    ASCII space, whatever follows. -/
+theorem force_whitespace_run_length (T : Tables) (hT : T.Sane) (maxLen : Nat) (a ws s : List UInt8) (ra : List Nat)
+    (ha : Encoded a ra) (hws : WsOnly T ws) (hne : ws ≠ []) :
+    force T maxLen (a ++ ws ++ s) = force T maxLen (a ++ (0x20 : UInt8) :: s) := by
+  rw [force_eq_slow T hT, force_eq_slow T hT, List.append_assoc,
+    slow_prefix_congr T maxLen a ra ha (ws ++ s) (0x20 :: s) (fun o p => slow_ws_run T hT maxLen ws hws hne s o p)]
+
+/-- the same for the string variant (ForceValidStringValue) and for strict normalisation when it succeeds -/
+theorem forceStr_ignores_leading_whitespace_length (T : Tables) (hT : T.Sane) (maxLen : Nat) (ws s : List UInt8)
+    (hws : WsOnly T ws) : forceStr T maxLen (ws ++ s) = forceStr T maxLen s := by
+  rw [forceStr_eq_force T hT, forceStr_eq_force T hT, force_ignores_leading_whitespace_length T hT maxLen ws s hws]
+
+theorem strict_ignores_leading_whitespace_length (T : Tables) (hT : T.Sane) (maxLen : Nat) (dst ws s v : List UInt8)
+    (hws : WsOnly T ws) (h : strict T maxLen dst (ws ++ s) = some v) : v = dst ++ force T maxLen s := by
+  rw [← force_ignores_leading_whitespace_length T hT maxLen ws s hws]
+  exact strict_agrees_with_force T maxLen dst _ v h
+
+/-- non-vacuity, and the seeded inputs for EVERY run length k: k spaces then "host-42" (600 in the seed's test);
+    "\tdc1", k newlines, "rack7 " (700 in the seed's test); k EM SPACEs (U+2003, 3 bytes each) then "arg" -/
+example (k : Nat) : force G 128 (List.replicate k 0x20 ++ str "host-42") = str "host-42" ∧
+    forceStr G 128 (List.replicate k 0x20 ++ str "host-42") = str "host-42" := by
+  have hw := wsOnly_spaces G gen_tables_sane k
+  rw [forceStr_ignores_leading_whitespace_length G gen_tables_sane 128 _ _ hw,
+    force_ignores_leading_whitespace_length G gen_tables_sane 128 _ _ hw]
+  decide
+example (k : Nat) (hk : 0 < k) :
+    force G 128 (str "\tdc1" ++ List.replicate k 0x0A ++ str "rack7 ") = str "dc1 rack7" := by
+  rw [force_whitespace_run_length G gen_tables_sane 128 _ _ _ _ (encoded_ascii (str "\tdc1") (by decide))
+    (wsOnly_replicate_ascii G 0x0A (by decide) (by decide) k) (by cases k with | zero => omega | succ k => simp)]
+  decide
+example (k : Nat) : force G 128 ((List.replicate k [0xE2, 0x80, 0x83]).flatten ++ str "arg") = str "arg" := by
+  have hw := wsOnly_replicate G 0x2003 (by unfold Scalar; omega) (by decide) k
+  have he : encodeRune 0x2003 = [0xE2, 0x80, 0x83] := by decide
+  rw [he] at hw
+  rw [force_ignores_leading_whitespace_length G gen_tables_sane 128 _ _ hw]
+  decide
+/-- the whitespace hypothesis cannot be dropped: a non-printable rune in front is not ignored -/
+example : force G 128 ([0x01] ++ str "a") ≠ force G 128 (str "a") := by decide
 
 end Normalisation
 
